@@ -142,6 +142,11 @@ func ProfileFor(focus, arm string) Profile {
 		p.OddQueries = 0.35
 		p.OddHdr = 0.15
 		p.LongNames = 0.08
+		// the same name asked again, also in another class or the neighbouring
+		// type, with a cache in between: the response has to carry the question
+		// that was asked
+		p.RepeatToken = 0.15
+		p.Classes = true
 		p.LongLived = 0.15
 		p.Shapes = []string{"plain", "plain", "mixed", "tight"}
 		p.HugeAnswers = 0.1
@@ -1421,7 +1426,7 @@ func genCacheOps(r *rng, p *plan.Plan, focus, arm string) {
 		qtype := []uint16{1, 28, 16, 15, 5}[r.intn(5)]
 		t := &plan.TokenSpec{}
 		a := &t.Ans
-		a.Shape = "plain"
+		a.Shape = []string{"plain", "plain", "plain", "srv", "mixed", "suffix"}[r.intn(6)]
 		a.NAn, a.NNs, a.NAr = r.rng(1, 3), r.intn(2), r.intn(2)
 		a.Compress = r.intn(4)
 		if focus == "C07" && r.p(0.15) {
@@ -1477,8 +1482,8 @@ func genCacheOps(r *rng, p *plan.Plan, focus, arm string) {
 		tcRefresh, twinMiss, leftover := false, false, false
 		switch focus {
 		case "C19":
-			// the refresh: slow, failing, or negative
-			switch r.intn(5) {
+			// the refresh: slow, failing, negative or truncated
+			switch r.intn(6) {
 			case 0:
 				t.Acts = append(t.Acts, plan.UpAction{Kind: "reply", DelayUs: r.i64(1000, 5_500_000)})
 			case 1:
@@ -1490,6 +1495,18 @@ func genCacheOps(r *rng, p *plan.Plan, focus, arm string) {
 				t.Acts = append(t.Acts, plan.UpAction{Kind: "reply", DelayUs: r.i64(1000, 2_000_000)})
 			case 3:
 				t.Acts = append(t.Acts, plan.UpAction{Kind: "garbage", Raw: []byte{1, 2, 3}, DelayUs: delay()}, plan.UpAction{Kind: "reply", DelayUs: delay()})
+			case 4:
+				if r.p(0.5) {
+					// the refresh comes back truncated (no records, or some): not
+					// an answer that may take the entry's place
+					trunc := *a
+					trunc.Bits |= refdns.BitTC
+					if r.p(0.5) {
+						trunc.NAn = 0
+					}
+					t.Ans2, t.Ans2Only = &trunc, []int{1}
+				}
+				t.Acts = append(t.Acts, plan.UpAction{Kind: "reply", DelayUs: delay()})
 			default:
 				t.Acts = append(t.Acts, plan.UpAction{Kind: "reply", DelayUs: delay()})
 			}
@@ -1772,7 +1789,7 @@ func genC11(r *rng, p *plan.Plan) {
 			}
 		}
 		if r.p(0.25) {
-			lines = append(lines, "regexp:"+[]string{`^t[0-9]+\.www\.`, `\.7\.`, `\\007`, `^[^.]+\.a\\000\.`, `example\.com$`, `\\\\`, `\\095srv`, `\\095dmarc\.`, `a\\032b`, `\.\\042\.`, `\\123`, `a\\047b`, `^[^.]+\.....\.`}[r.intn(13)])
+			lines = append(lines, "regexp:"+[]string{`^t[0-9]+\.www\.`, `\.7\.`, `\\007`, `^[^.]+\.a\\000\.`, `example\.com$`, `\\\\`, `\\095srv`, `\\095dmarc\.`, `a\\032b`, `\.\\042\.`, `\\123`, `a\\047b`, `^[^.]+\.....\.`, `^\D+\.www\.`, `^t\d+\.\D`, `\Aw`, `^t[0-9]+\.\S+\.\S+$`, `\Bexample`, `^[^.]+\.(?P<zone>org|com)$`, `\W[0-9]{3}\W`}[r.intn(20)])
 		}
 		if r.p(0.3) {
 			lines = append(lines, "", "# comment", "   ")
